@@ -107,12 +107,26 @@ pub struct Case {
     pub rpcs: Vec<Rpc>,
     /// restart the server (SIGTERM) before this RPC index
     pub restart_at: Option<usize>,
+    /// hnsw.max_elements = 20 (= the 20 documents four writers x five ids can hold): overwrites
+    /// and deletes fill the graph with tombstones and inserts trigger tombstone compaction
+    #[serde(default)]
+    pub small_index: bool,
 }
 
 pub struct C10;
 
 const DIM: usize = 4;
 const IDS: &[u64] = &[1, 2, 3, 4, 4_294_967_295];
+/// local ids beyond the tenant-local range whose high half names ANOTHER tenant's index
+const BAD_IDS: &[u64] = &[(1 << 32) | 1, (1 << 32) | 2, (2 << 32) | 2, (2 << 32) | 3, 4_294_967_296, (1 << 32) | 4_294_967_295];
+
+fn pick_id(t: &mut Tape) -> u64 {
+    if t.chance(24) {
+        t.pick(BAD_IDS)
+    } else {
+        t.pick(IDS)
+    }
+}
 const NSS: &[&str] = &["", "n1", "n2"];
 
 pub fn pool_vec(i: usize) -> Vec<f32> {
@@ -165,7 +179,7 @@ fn gen_filter(t: &mut Tape, depth: usize) -> Filter {
 }
 
 fn gen_item(t: &mut Tape) -> Item {
-    Item { id: t.pick(IDS), vec: t.below(6), meta: gen_meta(t), ns: t.pick(NSS).to_string() }
+    Item { id: pick_id(t), vec: t.below(6), meta: gen_meta(t), ns: t.pick(NSS).to_string() }
 }
 
 #[derive(Clone, Debug, PartialEq)]
@@ -217,8 +231,11 @@ struct World {
 }
 
 impl World {
-    fn start(cosine: bool, root: &std::path::Path, shard: usize) -> Result<World, Failure> {
-        let cfg = SrvCfg::default_for(DIM, if cosine { "cosine" } else { "euclidean" }, true, 1_000_000);
+    fn start(cosine: bool, small_index: bool, root: &std::path::Path, shard: usize) -> Result<World, Failure> {
+        let mut cfg = SrvCfg::default_for(DIM, if cosine { "cosine" } else { "euclidean" }, true, 1_000_000);
+        if small_index {
+            cfg.max_elements = 20;
+        }
         let mut srv = Server::new(cfg, root, shard);
         srv.start().map_err(|e| Failure::new("setup_failed", e))?;
         Ok(World { srv })
@@ -366,7 +383,7 @@ impl Prop for C10 {
         "rpc"
     }
     fn shape(&self, tier: Tier) -> RawShape {
-        RawShape { head_len: 4, chunk_len: 28, min_chunks: 8, max_chunks: tier.pick(36, 60) }
+        RawShape { head_len: 4, chunk_len: 28, min_chunks: 8, max_chunks: tier.pick(48, 72) }
     }
     fn max_shrink_iters(&self) -> u32 {
         60
@@ -378,6 +395,7 @@ impl Prop for C10 {
         let mut t = Tape::new(&raw.head);
         let cosine = t.chance(100);
         let restart_sel = t.u8();
+        let small_index = t.chance(100);
         let rpcs: Vec<Rpc> = raw
             .chunks
             .iter()
@@ -393,17 +411,18 @@ impl Prop for C10 {
                     _ => Who::NoKey,
                 };
                 let ns = |t: &mut Tape| t.pick(NSS).to_string();
-                let kind = match t.weighted(&[14, 3, 2, 8, 4, 12, 2, 4, 4, 2, 3, 1, 2]) {
+                let weights: &[u32] = if small_index { &[30, 6, 4, 4, 3, 6, 1, 3, 4, 2, 5, 1, 1] } else { &[14, 3, 2, 8, 4, 12, 2, 4, 4, 2, 3, 1, 2] };
+                let kind = match t.weighted(weights) {
                     0 => Kind::Insert(gen_item(&mut t)),
                     1 => Kind::BulkInsert((0..1 + t.below(3)).map(|_| gen_item(&mut t)).collect()),
                     2 => Kind::BulkLoad((0..1 + t.below(3)).map(|_| gen_item(&mut t)).collect()),
-                    3 => Kind::Query { id: t.pick(IDS), ns: ns(&mut t), emb: t.chance(128) },
-                    4 => Kind::BulkQuery { ids: (0..1 + t.below(4)).map(|_| t.pick(IDS)).collect(), ns: ns(&mut t), emb: t.chance(128) },
+                    3 => Kind::Query { id: pick_id(&mut t), ns: ns(&mut t), emb: t.chance(128) },
+                    4 => Kind::BulkQuery { ids: (0..1 + t.below(4)).map(|_| pick_id(&mut t)).collect(), ns: ns(&mut t), emb: t.chance(128) },
                     5 => Kind::Search { q: t.below(6), k: t.pick(&[1u32, 2, 3, 10]), ns: ns(&mut t), filter: if t.chance(100) { Some(gen_filter(&mut t, 2)) } else { None }, emb: t.chance(64) },
                     6 => Kind::BulkSearch((0..1 + t.below(3)).map(|_| (t.below(6), t.pick(&[1u32, 2, 10]), ns(&mut t), if t.chance(80) { Some(gen_filter(&mut t, 1)) } else { None })).collect()),
-                    7 => Kind::UpdateMeta { id: t.pick(IDS), meta: gen_meta(&mut t), merge: t.chance(128), ns: ns(&mut t) },
-                    8 => Kind::Delete { id: t.pick(IDS), ns: ns(&mut t) },
-                    9 => Kind::BatchDeleteIds { ids: (0..1 + t.below(4)).map(|_| t.pick(IDS)).collect(), ns: ns(&mut t) },
+                    7 => Kind::UpdateMeta { id: pick_id(&mut t), meta: gen_meta(&mut t), merge: t.chance(128), ns: ns(&mut t) },
+                    8 => Kind::Delete { id: pick_id(&mut t), ns: ns(&mut t) },
+                    9 => Kind::BatchDeleteIds { ids: (0..1 + t.below(4)).map(|_| pick_id(&mut t)).collect(), ns: ns(&mut t) },
                     10 => Kind::BatchDeleteFilter { filter: gen_filter(&mut t, 2), ns: ns(&mut t) },
                     11 => Kind::Flush,
                     _ => Kind::Usage { all: t.chance(100) },
@@ -412,14 +431,14 @@ impl Prop for C10 {
             })
             .collect();
         let restart_at = if restart_sel < 50 && !rpcs.is_empty() { Some(restart_sel as usize % rpcs.len()) } else { None };
-        Case { cosine, rpcs, restart_at }
+        Case { cosine, rpcs, restart_at, small_index }
     }
 
     fn run(&self, case: &Case, env: &CaseEnv) -> Result<CaseReport, Failure> {
         let shard = SHARD.with(|s| *s);
         let mut rep = CaseReport::default();
         // ---------------- world 1: everybody --------------------------------------------------
-        let mut w = World::start(case.cosine, &env.dir("w_all"), shard)?;
+        let mut w = World::start(case.cosine, case.small_index, &env.dir("w_all"), shard)?;
         let mut models: BTreeMap<Who, TenantModel> = BTreeMap::new();
         let mut responses: Vec<Value> = vec![];
         let mut exhaustive_tier = true; // every document still in the recent-write tier
@@ -464,7 +483,7 @@ impl Prop for C10 {
             if !others_wrote {
                 continue;
             }
-            let mut w = World::start(case.cosine, &env.dir(&format!("w_{:?}", solo)), shard)?;
+            let mut w = World::start(case.cosine, case.small_index, &env.dir(&format!("w_{:?}", solo)), shard)?;
             for (i, rpc) in case.rpcs.iter().enumerate() {
                 if case.restart_at == Some(i) {
                     w.restart()?;
